@@ -127,7 +127,7 @@ def run_property(pid: str, tier: str, seed: int) -> int:
 
     jobs = []
     for unit, ob in all_obs:
-        job = {"smt2": ob.smt2, "watch": ob.watch, "timeout_s": ob.meta.get("timeout_s", timeout_s), "strings": ob.meta.get("strings", False)}
+        job = {"smt2": ob.smt2, "watch": ob.watch, "timeout_s": ob.meta.get("timeout_s", timeout_s), "strings": ob.meta.get("strings", False), "pre_verdict": ob.meta.get("pre_verdict", "")}
         if ob.kind == "canary":
             job.update(timeout_s=3, only="z3", watch={})
         jobs.append(job)
